@@ -26,6 +26,36 @@ struct Call
 };
 static std::vector<Call> g_calls;
 static const char *g_line;
+static int g_handler_mode = 0;   // 0 = leaves argv alone, 1 = repoints every entry to its own string, 2 = rotates the entries
+static char *g_own_string;        // "zz": nothing accessible in front of it (left redzone / PROT_NONE page) nor behind it
+static bool g_line_guard_before;  // guard build: put the line flush BEHIND a PROT_NONE page instead of in front of one
+// the command line: exactly sized; ASan guards both ends, the guard build the end chosen by g_line_guard_before
+struct LineBuf
+{
+    CS *cs = nullptr;
+    guard::Region *rg = nullptr;
+    char *p;
+    LineBuf(const Str &s)
+    {
+        if (g_line_guard_before)
+        {
+            rg = new guard::Region(s.size() + 1, false);
+            p = (char *)rg->p;
+            memcpy(p, s.data(), s.size());
+            p[s.size()] = 0;
+        }
+        else
+        {
+            cs = new CS(s);
+            p = cs->p;
+        }
+    }
+    ~LineBuf()
+    {
+        delete cs;
+        delete rg;
+    }
+};
 static void record(int which, int argc, char **argv)
 {
     Call c;
@@ -38,6 +68,18 @@ static void record(int which, int argc, char **argv)
             c.off.push_back((long)(argv[i] - g_line));
         }
     g_calls.push_back(c);
+    // A handler owns the argv array it is given (char **, as in main): it may repoint entries to strings of its
+    // own or reorder them.  The dispatcher must not use argv after the handler has returned.
+    if (g_handler_mode == 1)
+        for (int i = 0; i < argc; i++)
+            argv[i] = g_own_string;
+    else if (g_handler_mode == 2 && argc >= 1)
+    {
+        char *first = argv[0];
+        for (int i = 0; i + 1 < argc; i++)
+            argv[i] = argv[i + 1];
+        argv[argc - 1] = first;
+    }
 }
 static int m_a(int argc, char **argv)
 {
@@ -203,7 +245,7 @@ static void check_shells(const Str &s, int which_family, bool longtab = false, c
         for (int null_ret = 0; null_ret < 2; null_ret++)
         {
             Str sfx = Str(sfx0) + (null_ret ? ".null_retptr" : "");
-            CS b(s);
+            LineBuf b(s);
             Exact out(4, 1);
             g_calls.clear();
             g_line = b.p;
@@ -434,5 +476,38 @@ MC_INIT
             check_dispatch(FN[d], s, ref, 0, rc, call ? ".second_call" : ".first_call");
         }
         mc::more_cases(1, k[0] != k[1] ? 1 : 0);
+    });
+
+    // ---------------------------------------------------------------- handlers that modify the argv array they get
+    // all lines of length 0..5 (thorough 6) over {space,a,b,tab} x {repoint every entry to the handler's own string,
+    // rotate the entries} x both guard placements of the line, through the four dispatchers (with and without retptr)
+    mc::add_check("argv_modifying_handlers", [] {
+        static const char SG[4] = {' ', 'a', 'b', '\t'};
+        Str s = enum_str(SG, 4, mc::thorough() ? 6 : 5, 3);
+        mc::describe("line=%s, handlers repoint / rotate their argv entries; the line is exactly sized and guarded on both sides", esc(s).c_str());
+        if (!g_own_string)
+        {
+#ifdef C19_GUARD
+            g_own_string = (char *)(new guard::Region(3, false))->p; // flush behind a PROT_NONE page
+#else
+            g_own_string = (char *)malloc(3); // exactly sized: redzones on both sides
+#endif
+            memcpy(g_own_string, "zz", 3);
+        }
+        LineRef r = line_ref(s);
+        if (r.which >= 0)
+            mc::nontrivial();
+        for (int mode = 1; mode <= 2; mode++)
+            for (int before = 0; before < 2; before++)
+            {
+                g_handler_mode = mode;
+                g_line_guard_before = before;
+                Str sfx = mode == 1 ? ".handler_repoints_argv" : ".handler_rotates_argv";
+                check_shells(s, 0, false, sfx.c_str());
+                check_shells(s, 1, false, sfx.c_str());
+            }
+        g_handler_mode = 0;
+        g_line_guard_before = false;
+        mc::more_cases(31, r.which >= 0 ? 31 : 0);
     });
 }
